@@ -26,7 +26,7 @@ EXPLANATION = (
     '-> waitReady -> exactly one readyok; every exit of the protocol loop passes engineThread.quit(); the quit command '
     'sets the quit flag; (6) Parameters::set is not reachable from the protocol thread. This decides the structural '
     'part of the contract, not the behaviour.'
-    ' (9) the command parser never rejects a token it has already consumed (list terminators are peeked at); (10) for a remaining time <= 0 the final soft and hard limits are not negative, so a clock-limited go cannot degenerate into an unlimited search.')
+    ' (9) the command parser never rejects a token it has already consumed (list terminators are peeked at); (10) for a remaining time <= 0 the final soft and hard limits are not negative, so a clock-limited go cannot degenerate into an unlimited search; (12) every limit field computeTimeLimit derives from the go is handed to startThread / Search::timeLimit on every go path - at the start, or for a ponder search by the release that lets it continue - in the argument position of the same name; (13) every insertion into the output stream held by the UCI classes is made with one common mutex held (locally or by every caller), and nothing called with that mutex held acquires it again or waits for another thread.')
 UNDECIDED = ('hangs caused by search-time behaviour, well-formedness of printed numbers, promptness in wall-clock '
              'terms, liveness of the thread hand-shake (see C10).')
 ASSUMPTIONS = [
@@ -55,6 +55,8 @@ def run(fb, rep, tier):
     from . import C10
     C10.c6_rearm(fb, rep, clause='C05.11')
     C10.completion_flag(fb, rep, 'C05.11')
+    c12_limits_reach_search(fb, rep)
+    c13_output_lines(fb, rep, cg)
     rep.extra['call_graph'] = {'functions': len(cg.edges), 'thread_roots': [fb.kname(k) + ' <- ' + fb.kname(c) for k, c, _ in cg.thread_roots if R.in_engine(fb.funcs.get(c)) ] if True else []}
     rep.extra['constant_stub_branches_folded'] = sorted({'%s -> %s' % (n, v) for _, _, n, v in fb.folded})
 
@@ -533,6 +535,215 @@ def c7_go_frame(fb, rep):
                 rep.ob(clause, 'K13 frame completeness', '%s: the per-go input %s of startThread is written on this go path' % (name.split('::')[-1], fld),
                        eff.must_write(f, fld), f.where, 'inputs of startThread that are long-lived configuration (not per-go): %s' % sorted(GO_CONFIG), f.sname)
         rep.floor(clause, 'per-go inputs of startThread', len(unknown), 6)
+
+
+# ----------------------------------------------------------------------------- .12
+
+LIMIT_SINKS = ('EngineControl::startThread', 'Search::timeLimit')
+
+
+def c12_limits_reach_search(fb, rep):
+    """K13: every limit computeTimeLimit derives from the go is handed to the search on every go path: either when the
+    search is started, or - for a search started in ponder mode - by the release that lets it continue (ponderhit).
+    A limit that is computed but never installed makes `go ponder depth N` + `ponderhit` search without limit and
+    never answer by itself (defect D11).  A release that installs only constants (stop: zero time) ends the search
+    and needs no limits."""
+    from ..effects import Effects
+    clause = 'C05.12'
+    ct = fb.find1('EngineControl::computeTimeLimit')
+    if not rep.need(clause, ct, 'EngineControl::computeTimeLimit'):
+        return
+    eff = Effects(fb, 'EngineControl')
+    limits = sorted(f for f in eff.may_write(ct) if not f.endswith('[]'))
+    rep.floor(clause, 'limit fields written by computeTimeLimit', len(limits), 5)
+
+    def consumed(f):
+        out = set()
+        for b, i, e in f.events():
+            if e.get('k') == 'call' and cname(e) in LIMIT_SINKS:
+                for a in e.get('args', []):
+                    for n in walk(a):
+                        if n.get('k') == 'mem':
+                            p_ = ap(n)
+                            if p_ and p_.startswith('this.'):
+                                out.add(p_.split('.')[1])
+        return out
+
+    def ponder_stores(f):
+        out = set()
+        for b, i, e in f.events():
+            tgt = val = None
+            if e.get('k') == 'call' and e.get('op') == '=' and e.get('args'):
+                tgt, val = e.get('recv'), e['args'][0]
+            elif e.get('k') == 'asg':
+                tgt, val = e.get('l'), e.get('r')
+            if tgt is not None and ap(tgt) == 'this.ponder':
+                while isinstance(val, dict) and val.get('k') == 'cast':
+                    val = val.get('e')
+                out.add(val.get('cv') if isinstance(val, dict) and val.get('k') == 'int' else '?')
+        return out
+
+    def calls(f, name):
+        return any(e.get('k') == 'call' and cname(e) == name for _, _, e in f.events())
+    methods = [f for f in fb.funcs.values() if f.has_cfg and f.d.get('cls') == 'EngineControl']
+    starters = sorted((f for f in methods if calls(f, 'EngineControl::computeTimeLimit') and calls(f, 'EngineControl::startThread')), key=lambda f: f.sname)
+    releasers = sorted((f for f in methods if f not in starters and 0 in ponder_stores(f) and consumed(f) & set(limits)), key=lambda f: f.sname)
+    rep.floor(clause, 'methods that start a search from a go', len(starters), 2)
+    n_ponder = 0
+    for m in starters:
+        paths = [(m.sname.split('::')[-1], consumed(m))]
+        if ponder_stores(m) - {0}:
+            n_ponder += 1
+            paths = [('%s + %s' % (m.sname.split('::')[-1], r.sname.split('::')[-1]), consumed(m) | consumed(r)) for r in releasers]
+            rep.ob(clause, 'K13 limit completeness', '%s starts a withheld search: some method releases it and installs limits' % m.sname.split('::')[-1], bool(releasers), m.where,
+                   'continuing releases: %s' % [r.sname for r in releasers], m.sname)
+        for label, got in paths:
+            for fld in limits:
+                rep.ob(clause, 'K13 limit completeness', 'go path %s: the limit %s computed from the go is handed to the search' % (label, fld), fld in got, m.where,
+                       'handed to %s on this path: %s' % ('/'.join(x.split('::')[-1] for x in LIMIT_SINKS), sorted(got & set(limits))), m.sname)
+    rep.floor(clause, 'go methods that start a withheld (ponder) search', n_ponder, 1)
+    # a limit is handed over in its own position: where the receiving parameter is itself named after a limit field, it is that field
+    n_pos = 0
+    for m in starters + releasers:
+        for b, i, e in m.events():
+            if e.get('k') == 'call' and cname(e) in LIMIT_SINKS:
+                callee = fb.find1(cname(e))
+                params = [p_.get('n') for p_ in (callee.d.get('params', []) if callee is not None else [])]
+                for k, a in enumerate(e.get('args', [])):
+                    while isinstance(a, dict) and a.get('k') == 'cast':
+                        a = a.get('e')
+                    fld = ap(a)[5:] if isinstance(a, dict) and a.get('k') == 'mem' and (ap(a) or '').startswith('this.') else None
+                    if fld in limits and k < len(params) and params[k] in limits:
+                        n_pos += 1
+                        rep.ob(clause, 'K10 argument agreement', '%s: %s argument %d (%s) receives the limit of the same name' % (m.sname.split('::')[-1], cname(e).split('::')[-1], k, params[k]),
+                               fld == params[k], R.site(m, e), 'passed: %s' % fld, m.sname)
+    rep.floor(clause, 'limit fields passed positionally to startThread / timeLimit', n_pos, 5)
+
+
+# ----------------------------------------------------------------------------- .13
+
+def c13_output_lines(fb, rep, cg):
+    """Lock discipline of the session's output stream.  The protocol thread (readyok, uci answers, info strings) and the
+    engine thread (info lines, bestmove) write to one stream with several insertions per line; without a common lock
+    an `isready` answered during a search lands inside an info line (`info depth readyok`) and the GUI never sees its
+    readyok (defect D10).  Every insertion into the stream held by the UCI classes is made with one and the same
+    mutex held - locally, or by every caller of the function."""
+    from ..locks import locksets
+    clause = 'C05.13'
+    holders = {}
+    for cls, rec in fb.records.items():
+        if '/app/texel/' not in ('/' + (rec.get('file') or '')):
+            continue
+        for fl in rec.get('fields', []):
+            if fl.get('rc') == 'std::basic_ostream<char>' and fl.get('reference'):
+                holders[cls] = fl['q']
+    rep.floor(clause, 'classes holding the session output stream', len(holders), 3)
+
+    def stream_base(e):
+        cur = e
+        while isinstance(cur, dict):
+            if cur.get('k') == 'cast':
+                cur = cur.get('e')
+            elif cur.get('k') == 'call' and cur.get('op') == '<<':
+                cur = cur.get('recv') if cur.get('recv') is not None else (cur.get('args') or [None])[0]
+            else:
+                break
+        return cur
+
+    def in_scope(f):
+        cls = f.d.get('cls') or ''
+        if cls in holders:
+            return True
+        par = f.d.get('lambdaParent')
+        return bool(par) and par in fb.funcs and in_scope(fb.funcs[par])
+    sites = {}
+    for f in fb.funcs.values():
+        if not (f.has_cfg and in_scope(f)):
+            continue
+        for b, i, e in f.events():
+            if e.get('k') == 'call' and e.get('op') == '<<':
+                base = stream_base(e)
+                if not isinstance(base, dict):
+                    continue
+                ok = (base.get('k') == 'mem' and base.get('f') in holders.values()) or \
+                     (base.get('k') == 'var' and base.get('vk') == 'param' and base.get('rc') == 'std::basic_ostream<char>')
+                if ok:
+                    sites.setdefault(f.key, (f, []))[1].append((b, i, e))
+    n_sites = sum(len(v[1]) for v in sites.values())
+    rep.floor(clause, 'insertions into the session output stream', n_sites, 30)
+    rep.floor(clause, 'functions writing to the session output stream', len(sites), 8)
+
+    # must-held locks on entry: what every call site inside the engine program holds
+    entry = {}
+
+    def entry_held(f, depth=0):
+        if f.key in entry:
+            return entry[f.key]
+        entry[f.key] = frozenset()
+        calls = [(g, b, i, e) for (g, b, i, e) in cg.call_sites(f.sname) if R.in_engine(g)]
+        held = None
+        for g, b, i, e in calls:
+            h = locksets(g, entry_held(g, depth + 1) if depth < 3 else ()).held(e)
+            held = h if held is None else (held & h)
+        entry[f.key] = held or frozenset()
+        return entry[f.key]
+    held_at = {}
+    count = {}
+    for key, (f, evs) in sites.items():
+        ls = locksets(f, entry_held(f))
+        for b, i, e in evs:
+            h = ls.held(e)
+            held_at[id(e)] = h
+            for m in h:
+                count[m] = count.get(m, 0) + 1
+    out_mutex = max(sorted(count), key=lambda m: count[m]) if count else None
+    for key, (f, evs) in sorted(sites.items(), key=lambda kv: kv[1][0].sname):
+        bad = [(b, i, e) for b, i, e in evs if out_mutex is None or out_mutex not in held_at[id(e)]]
+        rep.ob(clause, 'K6 lock discipline', '%s: every insertion into the session output stream holds the output mutex' % f.sname,
+               not bad, R.site(f, bad[0][2]) if bad else f.where,
+               'output mutex: %s; %d insertions, %d without it%s' % (out_mutex, len(evs), len(bad), ('; on entry: %s' % sorted(entry_held(f))) if entry_held(f) else ''), f.sname)
+    # the output mutex is not recursive: nothing called while it is held acquires it again (self-deadlock: no output ever again)
+    if out_mutex is not None:
+        from ..locks import _accessor_path, _is_lock_type
+        acquirers = set()
+        for f in fb.funcs.values():
+            if not (f.has_cfg and R.in_engine(f)):
+                continue
+            for b, i, e in f.events():
+                if e.get('k') == 'decl':
+                    for v in e.get('vars', []):
+                        init = v.get('init')
+                        if _is_lock_type(v.get('ct') or v.get('t')) and isinstance(init, dict) and init.get('args') and \
+                                (ap(init['args'][0]) or _accessor_path(init['args'][0])) == out_mutex:
+                            acquirers.add(f.key)
+        rep.floor(clause, 'functions acquiring the output mutex', len(acquirers), 8)
+        blockers = set()
+        for f in fb.funcs.values():
+            if f.has_cfg and R.in_engine(f) and any(e.get('k') == 'call' and (cname(e).startswith(('std::condition_variable::wait', 'std::thread::join', 'std::this_thread::sleep')) or cname(e) in ('std::mutex::lock',)) for _, _, e in f.events()):
+                blockers.add(f.key)
+        blocking = []
+        n_held_calls = 0
+        nested = []
+        for f in fb.funcs.values():
+            if f.key not in acquirers and not (f.key in sites and out_mutex in entry_held(f)):
+                continue
+            ls = locksets(f, entry_held(f))
+            for b, i, e in f.events():
+                if e.get('k') in ('call', 'ctor') and e.get('repo') and out_mutex in ls.held(e):
+                    n_held_calls += 1
+                    tgts = [g.key for g in fb.by_name.get(cname(e), [])]
+                    hit = sorted(fb.kname(k) for k in cg.reachable(tgts) & acquirers)
+                    if hit:
+                        nested.append((f, e, hit))
+                    hitb = sorted(fb.kname(k) for k in cg.reachable(tgts) & blockers)
+                    if hitb:
+                        blocking.append((f, e, hitb))
+        rep.ob(clause, 'K6 lock discipline', 'no function called with the output mutex held acquires it again', not nested,
+               R.site(nested[0][0], nested[0][1]) if nested else '', '%d repo calls made with the mutex held; re-acquiring: %s' % (n_held_calls, [(f.sname, show(e, 60), h) for f, e, h in nested[:3]]),
+               nested[0][0].sname if nested else '')
+        rep.ob(clause, 'K6 lock discipline', 'no function called with the output mutex held waits for another thread', not blocking,
+               R.site(blocking[0][0], blocking[0][1]) if blocking else '', 'functions that wait/join/sleep: %d; reached with the mutex held: %s' % (len(blockers), [(f.sname, show(e, 60), h[:2]) for f, e, h in blocking[:3]]),
+               blocking[0][0].sname if blocking else '')
 
 
 # ----------------------------------------------------------------------------- .8
